@@ -441,10 +441,12 @@ CHECKS["C18"] = {
         {"pkg": "./pkg/supervisor", "entry": "VerifC18_GC", "reach": ["rescheduled", "nothing-to-restart"], "opts": {"z3": "z3-new"},
          "shards": {"quick": ["shape=0,1,2,3", "shape=4", "shape=5", "shape=6"]}},
         {"pkg": "./pkg/supervisor", "entry": "VerifC18_KillAndWrapper", "reach": ["end"], "opts": {"z3": "z3-new"}},
+        {"pkg": "./pkg/supervisor", "entry": "VerifC18_Loop", "reach": ["end", "restarted", "restart-waited"], "opts": {"z3": "z3-new", "clockfiles": "pkg/supervisor/supervisor_processor.go"}},
     ],
-    "bounds": {"quick": {"decisions": "the supervisor's sequential decision procedures on the real code - processDied, processGC (run twice), processKill, the start wrapper of processSchedule - over all seven tree shapes with <= 4 nodes and depth <= 3 (single child, grouped and ungrouped siblings, chains, a child with grouped children); every node's state symbolic (5 states; DEAD/CANCELED with cancelled context, as the supervisor itself produces them); death messages nil / context.Canceled / wrapped context.Canceled / other error; service exits: nil, error, panic (panic capture on)"},
+    "bounds": {"quick": {"loop": "the REAL processor loop (New, processor, processSchedule, processDied, processGC, processKill, Run, Signal) with cooperative goroutines and a harness-fired scan ticker: a root service, optionally with one child; the first two instances of the root and of the child each behave in one of up to seven ways (return nil / error / panic / healthy until cancelled / done / healthy with wrapped context error / slow to stop after cancellation); two scans (three when a restart has to wait for a slow child), then cancellation of the supervisor's context",
+                         "decisions": "the supervisor's sequential decision procedures on the real code - processDied, processGC (run twice), processKill, the start wrapper of processSchedule - over all seven tree shapes with <= 4 nodes and depth <= 3 (single child, grouped and ungrouped siblings, chains, a child with grouped children); every node's state symbolic (5 states; DEAD/CANCELED with cancelled context, as the supervisor itself produces them); death messages nil / context.Canceled / wrapped context.Canceled / other error; service exits: nil, error, panic (panic capture on)"},
                "thorough": {}},
-    "outside": "PARTIAL by design (DESIGN 7): real goroutine interleavings of the processor with running services, the 1 ms scan timing, back-off durations (arbitrary in the model) and everything only the race detector can tell are outside; 'never two instances at once' is decided through the scan's precondition (only fully stopped subtrees are rescheduled, nothing is scheduled twice) given that DEAD/CANCELED are only written after the service function returned (start wrapper harness)",
+    "outside": "PARTIAL (DESIGN 7): pre-emptive interleavings of the processor with running services (the loop entry runs them cooperatively: a goroutine runs until it blocks), the 1 ms scan timing, back-off durations (arbitrary in the model) and everything only the race detector can tell are outside; 'never two instances at once' is decided through the scan's precondition (only fully stopped subtrees are rescheduled, nothing is scheduled twice) given that DEAD/CANCELED are only written after the service function returned (start wrapper harness)",
     "assumptions": ["context model (derived contexts with parent links, cancellation propagation, values)", "backoff.NextBackOff returns an arbitrary non-negative duration; time.Sleep is a no-op; regexp name check always passes",
                     "cooperative goroutines for the start wrapper and the rescheduling goroutines", "fmt.Errorf with %w builds a real *fmt.wrapError"],
 }
@@ -457,6 +459,6 @@ GENERATORS = {("node", "./pkg/vaa"): [_gen_c04], ("node", "./pkg/processor"): [_
 _BASE_LEVEL = "Bounded symbolic execution of the real functions; an SMT solver decides the assertions for every value inside the stated bounds; silent outside them."
 CHECKS["C07"]["level_text"] = "Symbolic execution of CalculateQuorum (node, and the copy the explorer links) for a symbolic n over the whole domain 0..255 - exhaustive for the property's domain - and solver comparison with the formulas extracted from the Solidity and Ralph contracts."
 CHECKS["C17"]["level_text"] = _BASE_LEVEL + " Schedules: cooperative goroutines with pre-emption explored before every channel/mutex operation of the two posters; no weak-memory effects."
-CHECKS["C18"]["level_text"] = "PARTIAL: bounded symbolic execution of the supervisor's sequential decision procedures (death classification, restart scan, kill, start wrapper) from arbitrary node states of trees with up to 4 nodes; real goroutine interleavings, scan timing and back-off durations are not decided."
+CHECKS["C18"]["level_text"] = "PARTIAL: bounded symbolic execution of (a) the supervisor's sequential decision procedures (death classification, restart scan, kill, start wrapper) from arbitrary node states of trees with up to 4 nodes and (b) the real processor loop with a root and one child service under cooperative scheduling (every combination of seven per-instance behaviours, two scans, then cancellation); pre-emptive interleavings, scan timing and back-off durations are not decided."
 CHECKS["C19"]["level_text"] = _BASE_LEVEL + " Concurrency: a lookup is forked after every store of the appending writer (sequentially consistent interleavings at store granularity); weak-memory effects and the race detector's verdict are outside."
 CHECKS["C20"]["level_text"] = _BASE_LEVEL + " Concurrency: cooperative scheduler (blocking = no runnable goroutine); one open known finding (C20-n)."
